@@ -232,7 +232,9 @@ func (bmachj *Bondmachine_json) Dejsoner() *Bondmachine {
 				break
 			}
 		}
-
+		if result.Shared_objects[i] == nil {
+			panic("loading bondmachine: unknown shared object " + so)
+		}
 	}
 	result.Shared_links = bmachj.Shared_links
 	return result
